@@ -91,6 +91,7 @@ class Sandbox:
         for n in os.listdir(self.tmp):
             shutil.rmtree(os.path.join(self.tmp, n), ignore_errors=True)
         self.clock = 0
+        os.chdir(self.R)
 
     def save(self):
         """Save the current tree (with mtimes); returns a handle."""
@@ -105,6 +106,7 @@ class Sandbox:
         shutil.rmtree(self.R, ignore_errors=True)
         shutil.copytree(dst, self.R, symlinks=True)
         self.clock = clock
+        os.chdir(self.R)
 
     def drop(self, handle):
         shutil.rmtree(handle[0], ignore_errors=True)
